@@ -2993,6 +2993,20 @@ func (c S3ApiController) DeleteObjects(ctx *fiber.Ctx) error {
 			})
 	}
 
+	// keys are opaque names: one that a file system would resolve to a
+	// different location is refused
+	for _, obj := range dObj.Objects {
+		if !utils.IsObjectNameValid(getstring(obj.Key)) || (getstring(obj.VersionId) != "" && !utils.IsPathComponentValid(getstring(obj.VersionId))) {
+			return SendResponse(ctx, s3err.GetAPIError(s3err.ErrInvalidRequest),
+				&MetaOpts{
+					Logger:      c.logger,
+					MetricsMng:  c.mm,
+					Action:      metrics.ActionDeleteObjects,
+					BucketOwner: parsedAcl.Owner,
+				})
+		}
+	}
+
 	// the access decision is taken for every object of the batch
 	keys := []string{""}
 	if len(dObj.Objects) > 0 {
